@@ -745,7 +745,7 @@ func (e *specEnv) call(n *ast.CallExpr) Val {
 		case "within":
 			f, s := e.eval(n.Args[0]), e.eval(n.Args[1])
 			nn := e.eval(n.Args[2]).C[0]
-			return Val{tBool, []string{and(eq(f.C[0], s.C[0]), le(s.C[1], f.C[1]), le(add(f.C[1], f.C[2]), add(s.C[1], nn)))}}
+			return Val{tBool, []string{or(eq(f.C[2], "0"), and(eq(f.C[0], s.C[0]), le(s.C[1], f.C[1]), le(add(f.C[1], f.C[2]), add(s.C[1], nn))))}}
 		case "sumlen":
 			// sumlen(s, i, c) = sum over j in [i, len(s)) of (c + len(s[j])), s a slice of slices
 			sv := e.eval(n.Args[0])
